@@ -13,7 +13,9 @@ RULE = ("Go types of depth <= 4 over all documented kinds (composed with reflect
         "pointers, in containers), after 0-2 earlier ForType calls with the same options object; per type 3 + n sampled values (zero with nil pointers "
         "and nil slices, the minima and the maxima of every sized kind, random) -> json.Marshal -> decode -> Validate against "
         "Resolve(ForType(T)) on the real package (the property observed directly); and ForType's schema = the model's. ~4% of types come "
-        "from the classes of known findings D13-D16. Non-trivial: composite type; distinct = operation text")
+        "from the classes of known findings D13-D16; ~7% are generated declared types at the corners of encoding/json's field selection "
+        "(embedded structs with a name-less json tag, one JSON name for a tagged and an untagged field of equal depth, same-depth diamonds "
+        "of embedded structs, and their neighbours). Non-trivial: composite type; distinct = operation text")
 ASSUMPTIONS = ["nil maps, []byte, ',string', pointer-receiver marshalers held by value are outside the property's domain"]
 OUTSIDE = {"bytes", "string-option", "ptr-marshaler-by-value", "badkey", "unsupported", "recursive"}
 KNOWN_FEATURE = {"bigint": "D13", "bad-tag-name": "D15", "embedded-tagged": "D16", "embedded-nonstruct": "D16"}
@@ -31,6 +33,15 @@ def gen(rng, tier, n):
                                                         "opts": {"ignore": rng.random() < 0.2, "typeSchemas": ts}, "warm": warm},
                         "meta": {"used": sorted(used), "nt": True, "ts": True}})
             continue
+        if rng.random() < 0.07:
+            # declared types at the corners of encoding/json's field selection (gen_decls.gen_families): embedded structs with a
+            # name-less json tag (still promoted), one JSON name for two fields of equal depth (the tagged one wins; tagged first
+            # or optional: known finding D14), same-depth diamonds of embedded structs (ambiguous: dropped) and their neighbours
+            t = gt.family_case(rng, used, {"inline": 8, "clash": 6, "clash_d14": 2, "diamond": 3, "diamond_near": 1})
+            if t is not None:
+                ops.append({"op": "infer-accepts", "args": {"type": t, "seed": rng.randint(0, 10**6), "n": 4 if tier == "quick" else 12},
+                            "meta": {"used": sorted(used), "nt": True, "family": True}})
+                continue
         t = gt.gen_type(rng, rng.choice([1, 2, 3, 4 if tier == "thorough" else 3]), used)
         ops.append({"op": "infer-accepts", "args": {"type": t, "seed": rng.randint(0, 10**6), "n": 4 if tier == "quick" else 12},
                     "meta": {"used": sorted(used), "nt": t["k"] in ("struct", "slice", "array", "map", "ptr", "named")}})
@@ -45,6 +56,8 @@ def known_class(o, go):
     for n in (o.get("meta") or {}).get("used", []):
         if n in gt.BANK_KNOWN:
             return gt.BANK_KNOWN[n]
+        if n in gt.GEN["known"]:
+            return gt.GEN["known"][n]       # generated declarations of a known class (gen_decls.gen_families: clash_d14)
     for f in go.get("features") or []:
         if f in KNOWN_FEATURE:
             return KNOWN_FEATURE[f]
